@@ -23,9 +23,9 @@
     identifier keys strictly ascending, grid shape, nesting at most 64 — lemma files `Hs/Lemmas/ZincImage*.lean`); from
     it re-encode stability for ALL accepted texts whose value has no Number / Date / Time / DateTime / Coord leaf
     (`C11_stable_struct`), up to an explicit exclusion list (`excluded`: grid `ver` other than "3.0", known finding Z4;
-    both needed: `C11_excluded_ver_needed`, `C11_excluded_Z4_needed`) and two shapes the proof does not reach
-    (`dupCols`, nesting exactly 64; kernel-checked examples show them stable); with lexical leaves under the
-    hypothesis that each leaf is a lexeme C01 covers (`C11_stable_full_partial`); for every decoded value that passes
+    both needed: `C11_excluded_ver_needed`, `C11_excluded_Z4_needed`) and one shape the proof does not reach
+    (nesting exactly 64; a kernel-checked example shows it stable); with Date and Coord leaves outright and with
+    Number / Time / DateTime leaves under the hypothesis that each is a lexeme C01 covers (`C11_stable_full_partial`); for every decoded value that passes
     an executable certificate (`C11_stable_partial`, `C11_stable_cert_partial`); the unrestricted statement
     `C11_stable` is false on the pinned tree (`C11_stable_fails_Z4`, `C11_stable_fails_ver`).
 -/
@@ -357,9 +357,9 @@ the reader's image).  These three facts are the reader's IMAGE INVARIANT; `C11_s
 them for ALL accepted texts from the analysis of the lexer and parser on arbitrary input (`C11_decoder_image`: ids
 come from the id alphabets, `dictOf` yields ascending keys, the header parser yields identifier column names and
 non-empty metas, rows carry only column names, the depth counter bounds the nesting), leaving as hypotheses only
-(a) the exclusion list on which the statement is false (Z4, `ver`), (b) the lexical leaves (number / date / time /
-timestamp / coordinate lexemes must be ones C01 covers) and (c) two shapes C01's round trip does not cover
-(duplicate column names, nesting exactly 64).  On the implementation the statement is decided for accepted texts
+(a) the exclusion list on which the statement is false (Z4, `ver`), (b) the lexical leaves (number / time /
+timestamp lexemes must be ones C01 covers; dates and coordinates always are) and (c) one shape C01's round trip does not cover
+(nesting exactly 64).  On the implementation the statement is decided for accepted texts
 (spelled, corpus, accepted mutants) by the exact-component oracle on every run. -/
 theorem C11_stable_partial :
     C11_stable_on (fun v => wfV (asRead v) = true ∧ depthOk (asRead v) = true ∧ lexImage (asRead v) = v) := by
@@ -455,40 +455,42 @@ has the reader's shape `decV`: Ref ids non-empty over the id alphabet, Symbol bo
 by id characters, XStr types capitalised names other than `C`; dict, meta and row keys strictly ascending (`dictOf` =
 `BTreeMap`, also when a key is repeated in the text); dict / meta keys and column names identifiers; every grid has
 at least one column, grid and column meta absent or NON-empty, row keys among the column names; numbers,
-coordinates and timestamps in the reader's lexical normal form; and the value is nested at most 64 deep (`nestV`
+coordinates and timestamps in the reader's lexical normal form, dates and coordinate components lexemes that re-lex
+to themselves (`dateOk`, `decTextOk`); and the value is nested at most 64 deep (`nestV`
 counts a tag as a level even when its value is the implicit Marker, read without a recursive call: 64 is reached
 only by such a tag at the reader's depth limit, see `deep64_*`). -/
 theorem C11_decoder_image (t : List UInt8) (v : Val) (h : fromBytes t = .ok v) : decV v = true ∧ nestV v ≤ 64 :=
   fromBytes_image t v h
 
 /-- PARTIAL: **re-encode stability for ALL accepted texts, every kind**, under
-* `lexLeavesOk v` — each Number / Date / Time / DateTime / Coord leaf of the decoded value is a lexeme the round trip
-  of C01 covers (`numOk`, `dateOk`, `timeOk`, `dtOk`, `decTextOk`: a decidable test on the value, evaluated by the
-  certificate of every run).  This is where the model stops: a decoded number is the text handed to `f64::from_str`
-  and what `Display` prints for the result belongs to std; the lexemes NOT covered are the legal but non-canonical
-  ones (`5e+3`, which the model's writer would print back verbatim while the real one prints `5000`);
+* `lexLeavesOk v` — each Number / Time / DateTime leaf of the decoded value is a lexeme the round trip of C01 covers
+  (`numOk`, `timeOk`, `dtOk`: a decidable test on the value, evaluated by the certificate of every run).  This is
+  where the model stops: a decoded number is the text handed to `f64::from_str` and what `Display` prints for the
+  result belongs to std; the lexemes NOT covered are the legal but non-canonical ones (`5e+3`, which the model's
+  writer would print back verbatim while the real one prints `5000`).  Date and Coord leaves need NO hypothesis: every
+  date and every coordinate the reader returns is a covered lexeme (`parseDate_img`, `parseDecimal_img`; part of
+  `decV`);
 * `excluded v = false` — the exclusion list: the statement is FALSE on these (`C11_excluded_ver_needed`,
   `C11_excluded_Z4_needed`);
-* `dupCols v = false`, `depthOk v = true` — NOT counterexamples (`dup_*`, `deep64_*` below are stable): two columns of
-  one name (the reader keeps both, every row then carries one cell for the name) and nesting exactly 64 are outside
-  the hypotheses of C01's round trip `C01_wf`, through which this proof goes.
-Everything else — that the value is `wfV`, that it is its own lexical image — is PROVED from `fromBytes t = .ok v`
-alone (`C11_decoder_image`, `image_wf`). -/
+* `depthOk v = true` (`nestV v < 64`) — NOT a counterexample (`deep64_stable` below): the reader guarantees
+  `nestV v ≤ 64` (`C11_decoder_image`), and 64 is reached only by a tag with the implicit Marker at the reader's depth
+  limit, which lies outside the depth hypothesis of C01's round trip, through which this proof goes.
+Everything else is PROVED from `fromBytes t = .ok v` alone (`C11_decoder_image`, `image_good`, and C01's ladder
+repeated for grids that name a column twice: the reader keeps both columns, `ZincImageDup*`, `dup_stable`). -/
 theorem C11_stable_full_partial :
-    C11_stable_on (fun v => lexLeavesOk v = true ∧ excluded v = false ∧ dupCols v = false ∧ depthOk v = true) := by
-  intro t v ht ⟨hl, hx, hu, hn⟩
-  obtain ⟨a, b, c⟩ := fromBytes_wf t v ht hl hx hu hn
-  exact C11_stable_partial t v ht ⟨a, b, by rw [lexImage_eq]; exact c⟩
+    C11_stable_on (fun v => lexLeavesOk v = true ∧ excluded v = false ∧ depthOk v = true) := by
+  intro t v ht ⟨hl, hx, hn⟩
+  exact fromBytes_stable t v ht hl hx hn
 
 /-- **re-encode stability for ALL accepted texts whose value has no lexical leaf** (`structV`: built from Null,
 Remove, Marker, NA, Bool, Str, Uri, Ref with or without display name, Symbol, XStr, List, Dict, Grid with meta /
-column meta / Null and missing cells / nested grids): encoding the decoded value and decoding again yields the
-decoded value, unless the value is on the exclusion list (`excluded`: a grid `ver` other than "3.0", Z4), has two
-columns of one name or is nested exactly 64 deep (see `C11_stable_full_partial` for the status of the last two). -/
+column meta / Null and missing cells / nested grids / repeated column names): encoding the decoded value and
+decoding again yields the decoded value, unless the value is on the exclusion list (`excluded`: a grid `ver` other
+than "3.0", Z4) or is nested exactly 64 deep (see `C11_stable_full_partial` for the status of the latter). -/
 theorem C11_stable_struct :
-    C11_stable_on (fun v => structV v = true ∧ excluded v = false ∧ dupCols v = false ∧ depthOk v = true) := by
-  intro t v ht ⟨hs, hx, hu, hn⟩
-  exact C11_stable_full_partial t v ht ⟨lexLeaves_of_struct v hs, hx, hu, hn⟩
+    C11_stable_on (fun v => structV v = true ∧ excluded v = false ∧ depthOk v = true) := by
+  intro t v ht ⟨hs, hx, hn⟩
+  exact C11_stable_full_partial t v ht ⟨lexLeaves_of_struct v hs, hx, hn⟩
 
 /-! #### the exclusion list is sharp: one kernel-checked witness text per member -/
 
@@ -509,7 +511,7 @@ theorem ver_redecoded : fromBytes (encode (asRead verVal)) = .ok verVal' := isOk
 /-- **`ver` must be on the list**: without it the literal statement is false (all other hypotheses hold of the
 witness); not a defect of the code, see `verText` -/
 theorem C11_excluded_ver_needed :
-    ¬ C11_stable_on (fun v => structV v = true ∧ hasZ4 v = false ∧ dupCols v = false ∧ depthOk v = true) := by
+    ¬ C11_stable_on (fun v => structV v = true ∧ hasZ4 v = false ∧ depthOk v = true) := by
   intro h
   have h1 := h verText verVal ver_accepted (by decide +kernel)
   rw [ver_redecoded] at h1
@@ -524,7 +526,7 @@ theorem C11_stable_fails_ver : ¬ C11_stable := by
 
 /-- **Z4 must be on the list** (witness `z4Text` above) -/
 theorem C11_excluded_Z4_needed :
-    ¬ C11_stable_on (fun v => structV v = true ∧ hasVer v = false ∧ dupCols v = false ∧ depthOk v = true) := by
+    ¬ C11_stable_on (fun v => structV v = true ∧ hasVer v = false ∧ depthOk v = true) := by
   intro h
   have h1 := h z4Text z4Val z4_accepted (by decide +kernel)
   rw [z4_redecoded] at h1
@@ -533,7 +535,7 @@ theorem C11_excluded_Z4_needed :
 example : excluded verVal = true ∧ hasZ4 verVal = false := by decide +kernel
 example : excluded z4Val = true ∧ hasVer z4Val = false := by decide +kernel
 
-/-! #### the two shapes outside C01's hypotheses are NOT counterexamples -/
+/-! #### repeated column names are covered; the one shape outside C01's hypotheses is NOT a counterexample -/
 
 /-- two columns `a`: the reader keeps both, a row gets ONE cell `a` (the last one read); re-encoded, that cell is
 written under both columns and read back as the same row -/
@@ -543,8 +545,13 @@ def dupVal : Val :=
     (.cons (.cons ['a'] (.str ['x']) (.cons ['b'] (.str ['z']) .nil)) (.cons (.cons ['a'] (.str ['y']) .nil) .nil))
     ['3', '.', '0']
 theorem dup_accepted : fromBytes dupText = .ok dupVal := isOkEq_sound (by decide +kernel)
-theorem dup_is_dup : dupCols dupVal = true ∧ structV dupVal = true ∧ excluded dupVal = false := by decide +kernel
-theorem dup_stable : fromBytes (encode (asRead dupVal)) = .ok dupVal := isOkEq_sound (by decide +kernel)
+theorem dup_is_dup : dupCols dupVal = true ∧ structV dupVal = true ∧ excluded dupVal = false ∧ depthOk dupVal = true := by
+  decide +kernel
+/-- by the theorem (no evaluation of the second decode) … -/
+theorem dup_stable : fromBytes (encode (asRead dupVal)) = .ok dupVal :=
+  C11_stable_struct dupText dupVal dup_accepted ⟨dup_is_dup.2.1, dup_is_dup.2.2.1, dup_is_dup.2.2.2⟩
+/-- … and by running the model -/
+example : fromBytes (encode (asRead dupVal)) = .ok dupVal := isOkEq_sound (by decide +kernel)
 
 /-- 63 lists around a dict with one Marker tag: accepted (the tag's implicit Marker needs no recursive call),
 `nestV = 64`, and stable -/
@@ -746,8 +753,7 @@ theorem exStruct_ok : fromBytes exStructText = .ok exStructVal := by
   cases hx : fromBytes exStructText <;> simp_all [Res.isOk]
 /-- the text is not what the writer prints for its value -/
 example : (encode (asRead exStructVal) == exStructText) = false := by decide +kernel
-example : structV exStructVal = true ∧ excluded exStructVal = false ∧ dupCols exStructVal = false ∧
-    depthOk exStructVal = true := by decide +kernel
+example : structV exStructVal = true ∧ excluded exStructVal = false ∧ depthOk exStructVal = true := by decide +kernel
 example : fromBytes (encode (asRead exStructVal)) = .ok exStructVal :=
   C11_stable_struct exStructText exStructVal exStruct_ok (by decide +kernel)
 /-- `C11_decoder_image` on the same text and on `exSpelled` (numbers, a timestamp) -/
@@ -757,6 +763,19 @@ example := C11_decoder_image exSpelled exSpelledVal exSpelled_ok
 covered -/
 example : fromBytes (encode (asRead exSpelledVal)) = .ok exSpelledVal :=
   C11_stable_full_partial exSpelled exSpelledVal exSpelled_ok (by decide +kernel)
+
+/-- dates and coordinates need no hypothesis: a text with odd spacing inside `C( … )`, a trailing `.` and a sign -/
+def exDateCoordText : List UInt8 := "[ 2024-02-29 ,C( -33.8688 ,151. ) , {d:1999-12-31} ,]".toUTF8.toList
+def exDateCoordVal : Val :=
+  match fromBytes exDateCoordText with
+  | .ok v => v
+  | _ => .null
+theorem exDateCoord_ok : fromBytes exDateCoordText = .ok exDateCoordVal := by
+  have h : (fromBytes exDateCoordText).isOk = true := by decide +kernel
+  unfold exDateCoordVal
+  cases hx : fromBytes exDateCoordText <;> simp_all [Res.isOk]
+example : fromBytes (encode (asRead exDateCoordVal)) = .ok exDateCoordVal :=
+  C11_stable_full_partial exDateCoordText exDateCoordVal exDateCoord_ok (by decide +kernel)
 
 end examples
 
